@@ -203,6 +203,8 @@ def check_write(res, fmt, dest, overwrite, entry, select, kind, pos, oi):
         kw = {}
     elif select == 'tilde':               # the destination spelt with a leading '~' (HOME is the scratch directory)
         kw = {'format': fmt}
+    elif select == 'pathlib':             # the destination given as a pathlib.Path object instead of a string
+        kw = {'format': fmt}
     elif select == 'unknown_format':
         kw = {'format': 'nope'}
     regs = make_list(fmt, kind, pos)
@@ -218,6 +220,9 @@ def check_write(res, fmt, dest, overwrite, entry, select, kind, pos, oi):
         if select == 'tilde':
             os.environ['HOME'] = box.dir
             wpath = '~/' + fname
+        if select == 'pathlib':
+            import pathlib
+            wpath = pathlib.Path(box.path)
         try:
             with warnings.catch_warnings():
                 warnings.simplefilter('ignore')
@@ -360,7 +365,7 @@ def cases(tier):
     out = []
     for fmt in FORMATS:
         selects = ['explicit'] + [f'ext:{e}' for e in WRITE_EXT[fmt]] + [f'ext:{e.upper()}' for e in WRITE_EXT[fmt]] + \
-            ['unknown_ext', 'unknown_format', 'no_ext', 'ext_prefix', 'tilde']
+            ['unknown_ext', 'unknown_format', 'no_ext', 'ext_prefix', 'tilde', 'pathlib']
         for dest in DESTS:
             for ow in (False, True):
                 for entry in ('regions', 'region'):
